@@ -66,18 +66,21 @@ claimed = {
 
 # additions made after the first version of the table above (appended to the level text)
 extra = {
- 'C01': " Also proved: the placeholders of an already rendered text (raw sub-query in AddVar, ON conditions of a relation join) are rewritten one per bound value.",
- 'C03': " Also proved: values of a slice of maps are stored at their own row/column position; without RETURNING the generated key given to the k-th key-less record is the reported id moved by k increments (both walking directions).",
- 'C04': " Also proved: Commit/Rollback never call into a typed-nil transaction (failed BEGIN); SAVEPOINT / ROLLBACK TO of a nested block run on the caller's handle (same context and connection).",
- 'C05': " Also proved: the error returned by the statement's ExecContext/QueryContext reaches AddError in Create/Update/Delete/Query/RawExec; gorm:begin_transaction is registered first and gorm:commit_or_rollback_transaction last in the create/update/delete pipelines; several batches run in one wrapping transaction.",
+ 'C10': " Also proved: Save selects every field unless the chain itself selected some (Omit is not a selection).",
+ 'C06': " Also proved: Count removes clauses only from the statement of the instance it made; BuildCondition runs the scopes of a *DB argument on an instance and writes condition lists only in arrays it allocated.",
+ 'C02': " Also proved: each chain call adds its conditions as one unit (Where as built, Not over all of them, Or one OR unit holding their AND group).",
+ 'C01': " Also proved: the placeholders of an already rendered text (raw sub-query in AddVar, ON conditions of a relation join) are rewritten one per bound value. AddVar itself writes only punctuation, \"(NULL)\" and the text a sub-query rendered, and neither it nor any clause builder converts a value to text (strconv/fmt sweep).",
+ 'C03': " Also proved: values of a slice of maps are stored at their own row/column position; without RETURNING the generated key given to the k-th key-less record is the reported id moved by k increments (both walking directions). Schema.LookUpField resolves a name as a column name first and a field name second (functional contract); after ON CONFLICT DO NOTHING a returned row goes to a record whose returning values are all unset; LastInsertId is read back only when a row was inserted.",
+ 'C04': " Also proved: Commit/Rollback never call into a typed-nil transaction (failed BEGIN); SAVEPOINT / ROLLBACK TO of a nested block run on the caller's handle (same context and connection). A failed COMMIT of the block is returned.",
+ 'C05': " Also proved: the error returned by the statement's ExecContext/QueryContext reaches AddError in Create/Update/Delete/Query/RawExec; gorm:begin_transaction is registered first and gorm:commit_or_rollback_transaction last in the create/update/delete pipelines; several batches run in one wrapping transaction. Session writes only its own copy of the configuration; a failed COMMIT of a Transaction block is returned; the error of a cascaded delete is recorded on the operation.",
  'C08': " Also proved: the ON clause of an association join is built after the joined model's query modifiers (soft-delete filter) on every path; the raw-condition grouping harness of C02 is run for C08 as well (bounded).",
- 'C09': " Also proved: Delete and the soft-delete UPDATE derive key conditions first from the deleted value, then from the Model value, each only when key values were found; Update adds a key condition only for a record whose key is set.",
- 'C11': " Also proved: Statement.clone copies every preload into a map of its own.",
+ 'C09': " Also proved: Delete and the soft-delete UPDATE derive key conditions first from the deleted value, then from the Model value, each only when key values were found; Update adds a key condition only for a record whose key is set. Scopes of a *DB passed as a condition are run on an instance, never on the reusable handle (finding F7).",
+ 'C11': " Also proved: Statement.clone copies every preload into a map of its own. The handle of a nested preload keeps the query's Unscoped flag; records of a joined relation are preloaded with the join names below that relation.",
  'C12': " Also checked (thin structural sweeps): the fixed value of a reference (polymorphic owner type) is stored into the equality conditions of Delete/Replace; a many-to-many Replace identifies the kept targets by the fields the join table references.",
- 'C13': " Also proved: batches run without a wrapping transaction only when a single batch suffices; each hook flag of a schema is looked up by the hook's own name.",
+ 'C13': " Also proved: batches run without a wrapping transaction only when a single batch suffices; each hook flag of a schema is looked up by the hook's own name. A hook that ran is reported as called (it is not run a second time on the pointer); the error of a cascaded delete is recorded.",
  'C14': " Also proved: a statement evicted after driver.ErrBadConn is handed to a closer (all four Exec/Query wrappers).",
- 'C15': " Also proved: OrderBy.MergeClause accumulates columns in call order in the chain's own list (functional contract); First/Last/Take ask for one row in ascending/descending/no key order and raise not-found; Count restores ORDER BY and SELECT on a chain in progress; Scan records the cursor's error when the first Next is false.",
- 'C16': " Also proved: Save enters the UPDATE path for a struct only after every primary field of the value was read and found non-zero.",
+ 'C15': " Also proved: OrderBy.MergeClause accumulates columns in call order in the chain's own list (functional contract); First/Last/Take ask for one row in ascending/descending/no key order and raise not-found; Count restores ORDER BY and SELECT on a chain in progress; Scan records the cursor's error when the first Next is false. Statement.clone keeps Distinct; BuildQuerySQL uses the plain FROM only when there is no join of either kind; FindInBatches groups the chain's conditions before the loop when one of them is an OR (hasOrCondition proved to find an OR unit iff there is one; finding F16, fixed) and adds the key condition to that handle; the bounded differential run includes chains with Or.",
+ 'C16': " Also proved: Save enters the UPDATE path for a struct only after every primary field of the value was read and found non-zero. The generated key is read back only after an insert; FirstOrInit/FirstOrCreate apply conditions, Attrs and Assign one list at a time.",
  'C17': " Also proved: the '*' pre-sort of sortCallbacks is a stable sort (no unstable sort of the callback list anywhere); the bounded harness also drives Before/After(x).Replace.",
  'C18': " Also proved: SAVEPOINT / ROLLBACK TO of a nested Transaction are issued through the receiver itself (same context).",
  'C19': " Also proved: Config.DryRun is read only at the driver-call gates, in Execute's epilogue, Save, Row and Rows; a real run clears the built text and values, a dry run keeps them; ToSQL hands its callback a DryRun session of the receiver's own chain.",
